@@ -43,6 +43,14 @@ def configs(tier, seed=0):
                 continue
               out.append(dict(kp=kp, mono=mono, conv=conv, lo=lo, hi=hi, cmin=cmin,
                               cmax=cmax, iters=it, via=via, cyclic=False))
+    # clamps on a calibrator that is NOT monotonic: the library documents "Clamping is not implemented
+    # for non monotonic functions" and refuses (ValueError) - accepted here; if a projection is
+    # returned instead, it has to reach the clamped bound like any other configuration
+    for lo, hi, cmin, cmax in ((0.0, 1.0, True, False), (0.0, 1.0, False, True), (-1.0, 2.0, True, True),
+                               (0.0, None, True, False), (None, 1.0, False, True)):
+      for via in ("constraint", "layer"):
+        out.append(dict(kp=kp, mono=0, conv=0, lo=lo, hi=hi, cmin=cmin, cmax=cmax, iters=8, via=via,
+                        cyclic=False, refusal_ok=True))
     # cyclic: only without monotonicity/convexity; only through the layer
     for lo, hi in BOUNDS:
       if len(kp) >= 3:
@@ -210,7 +218,12 @@ def replay(case):
   K = np.asarray(case["kernel"], dtype=np.float64)
   if K.ndim == 1:
     K = K[:, None]
-  Kout, outs = apply_constraint(cfg, K)
+  try:
+    Kout, outs = apply_constraint(cfg, K)
+  except ValueError as e:
+    if cfg.get("refusal_ok") and "not implemented for non monotonic" in str(e):
+      return None
+    raise
   res, _ = judge(cfg, K, Kout, outs)
   want = case.get("violated")
   msgs = [m for _, k, m in res if want is None or k == want] or [m for _, _, m in res]
@@ -243,7 +256,14 @@ def work(ctx, cfg):
     return
   n = len(cfg["kp"]) - (1 if cfg["cyclic"] else 0)
   Kin = kernel_space(n, ctx.tier)
-  Kout, outs = apply_constraint(cfg, Kin)
+  try:
+    Kout, outs = apply_constraint(cfg, Kin)
+  except ValueError as e:
+    if cfg.get("refusal_ok") and "not implemented for non monotonic" in str(e):
+      ctx.add(evaluations=1, traces=1)
+      ctx.tab("outcome", "clamp_without_monotonicity_refused")
+      return
+    raise
   res, feas = judge(cfg, Kin, Kout, outs)
   changed = np.abs(Kout - Kin).max(axis=0) > 0
   ctx.add(evaluations=Kin.shape[1], nontrivial=int(changed.sum()), traces=Kin.shape[1])
